@@ -51,6 +51,15 @@ def mol_to_json(mol):
 def check_graph(mol, j):
     """consistency facts of RDKit the model uses: returns a list of violated ones (empty = fine)"""
     bad = []
+    # stability: querying ring membership must not change the ring information (it does when RDKit does not regard the
+    # stored rings as an SSSR, e.g. straight after Chem.RenumberAtoms)
+    for a in mol.GetAtoms():
+        a.IsInRing()
+    for b in mol.GetBonds():
+        b.IsInRing()
+    if mol_to_json(mol) != j:
+        bad.append('ring information changes when atom.IsInRing()/bond.IsInRing() are called')
+        return bad
     n = mol.GetNumAtoms()
     rings = j['rings']
     for a in mol.GetAtoms():
